@@ -4,6 +4,7 @@
              Marshal of the parsed circuit (empty when the parse is not Ok)
      mode 1: payload = (byte ...); output = (result bytes2)
      mode 2: payload = (byte ...) type text; output = (class info String-of-info)
+     mode 3: fmt = (byte ...) format string of MarshalFormat, payload = circuit; output = (0 bytes) | (1)
    circuit = (numGates numWires (ioarg...) (ioarg...) ((op in0 in1 out)...))
    ioarg   = (name info (ioarg...))       name = ((byte...) trailing-zero-count)
    info    = (type concrete bits minbits arraysize (elem?) (field-info...))
@@ -106,6 +107,12 @@ Definition run_c14_gen (fx : bool) (inp : sx) : sx :=
   else if Z.eqb mode 1 then
     let r := parse_fmt_gen fx fmt (getLN (nthx 2 inp)) in
     SL [sx_of_res r; remarshal fmt r]
+  else if Z.eqb mode 3 then
+    (* MarshalFormat: fmt = (format string bytes), payload = circuit *)
+    match MarshalFormat (getLN (nthx 1 inp)) (circuit_of_sx (nthx 2 inp)) with
+    | Some bs => SL [SZ 0; ofLN bs]
+    | None => SL [SZ 1]
+    end
   else
     match Parse (getLN (nthx 2 inp)) with
     | Ok i => SL [SZ 0; sx_of_info i; ofLN (info_string i)]
